@@ -5,19 +5,26 @@ From Coq Require Import List NArith ZArith Bool.
 From T38 Require Import Base.Bytes Base.SMap Model.Shrink Model.ShrinkLoad Proofs.ShrinkProofs Proofs.ShrinkLoadProofs.
 Import ListNotations.
 
-(* As t38x reads the source on every run (Gen/ShrinkFinal.v): the reserved-field-name check of
-   cmdSET / cmdFSET looks at the name field.Make is going to store (trimmed), and Serve completes an
-   interrupted AOFSHRINK swap BEFORE it decides whether the legacy "aof" file has to be migrated. *)
+(* As t38x reads the source on every run (Gen/ShrinkFinal.v): the reserved-field-name checks of cmdSET
+   and of cmdFSET — the only two call sites — both compare strings.TrimSpace(name), i.e. the name
+   field.Make is going to store, with the reserved names; and Serve completes an interrupted
+   AOFSHRINK swap BEFORE it decides whether the legacy "aof" file has to be migrated. *)
 Theorem c09_load_checks_transcribed :
-  check_looks_at_stored_src = true /\ startup_src = Some startup_ops.
+  set_txs_src = Some [TTrim] /\ fset_txs_src = Some [TTrim] /\
+  check_sites_src = ["cmdFSET"; "cmdSET"]%string /\ startup_src = Some startup_ops.
 Proof. exact load_checks_transcribed. Qed.
 Print Assumptions c09_load_checks_transcribed.
 
-(* Field names.  For any idempotent trim (strings.TrimSpace): every command the server accepts keeps
-   "all stored field names are trimmed and not reserved" ... *)
+(* Field names.  "Every record the rewrite emits is accepted by the loader and reproduces the object":
+   f_set / f_fset are what SET's / FSET's check compares with the reserved names.  If SET looks at a
+   stored name the way it looked at the name as sent (set_of_stored) and the way FSET looked at the
+   name it accepted (fset_then_set: whatever FSET lets through, SET lets through on replay), then
+   every accepted command keeps "all stored names are trimmed and accepted by SET" ... *)
 Theorem c09_names_invariant :
-  forall trim, (forall n, trim (trim n) = trim n) ->
-  forall s c s' o, names_ok trim s -> exec_n trim true s c = Some (s', o) -> names_ok trim s'.
+  forall trim f_set f_fset,
+    (forall n, f_set (trim n) = f_set n) -> (forall n, f_set (trim n) = f_fset n) ->
+    (forall n, trim (trim n) = trim n) ->
+  forall s c s' o, names_ok trim f_set s -> exec_n trim f_set f_fset s c = Some (s', o) -> names_ok trim f_set s'.
 Proof. exact exec_n_names_ok. Qed.
 Print Assumptions c09_names_invariant.
 
@@ -26,27 +33,50 @@ Print Assumptions c09_names_invariant.
    C09 theorems gives: the reserved-name check can never stop the server from starting on a
    rewritten log. *)
 Theorem c09_names_snapshot_loads :
-  forall trim, (forall n, trim (trim n) = trim n) ->
-  forall l s0, let s := run_n trim l [] in
-    replay_n trim true (map rec_of (flatten s)) s0 = Some (replay (map rec_of (flatten s)) s0).
+  forall trim f_set f_fset,
+    (forall n, f_set (trim n) = f_set n) -> (forall n, f_set (trim n) = f_fset n) ->
+    (forall n, trim (trim n) = trim n) ->
+  forall l s0, let s := run_n trim f_set f_fset l [] in
+    replay_n trim f_set f_fset (map rec_of (flatten s)) s0 = Some (replay (map rec_of (flatten s)) s0).
 Proof. exact reachable_snapshot_loads. Qed.
 Print Assumptions c09_names_snapshot_loads.
 
+(* the checks as they are written in the source satisfy the hypotheses, for every idempotent trim *)
+Theorem c09_names_snapshot_loads_src :
+  forall trim fs ff, (forall n, trim (trim n) = trim n) ->
+    set_txs_src = Some fs -> fset_txs_src = Some ff ->
+  forall l s0, let s := run_n trim (f_of trim fs) (f_of trim ff) l [] in
+    replay_n trim (f_of trim fs) (f_of trim ff) (map rec_of (flatten s)) s0 = Some (replay (map rec_of (flatten s)) s0).
+Proof. exact snapshot_loads_src. Qed.
+Print Assumptions c09_names_snapshot_loads_src.
+
 Theorem c09_names_snapshot_record_loads :
-  forall trim s k i o s', names_ok trim s -> lookup k i s = Some o ->
-    exec_n trim true s' (rec_cmd k i o) = Some (exec s' (rec_cmd k i o)).
+  forall trim f_set f_fset s k i o s', names_ok trim f_set s -> lookup k i s = Some o ->
+    exec_n trim f_set f_fset s' (rec_cmd k i o) = Some (exec s' (rec_cmd k i o)).
 Proof. exact snapshot_record_loads. Qed.
 Print Assumptions c09_names_snapshot_record_loads.
 
 (* The check on the name as sent (pinned tree): SET k id FIELD " z" 5 ... is accepted and stored as z;
    the snapshot record is refused: the server does not start.  The repaired check refuses the SET. *)
 Theorem c09_names_check_as_sent_refuted :
-  exists c s', exec_n trim_ws false [] c = Some (s', Updated) /\
+  exists c s', exec_n trim_ws f_id f_id [] c = Some (s', Updated) /\
     (exists k i o, lookup k i s' = Some o) /\
-    replay_n trim_ws false (map rec_of (flatten s')) [] = None /\
-    exec_n trim_ws true [] c = None.
+    replay_n trim_ws f_id f_id (map rec_of (flatten s')) [] = None /\
+    exec_n trim_ws trim_ws trim_ws [] c = None.
 Proof. exact names_check_as_sent_refuted. Qed.
 Print Assumptions c09_names_check_as_sent_refuted.
+
+(* SET stricter than FSET (SET lower-cases the name before the check, FSET does not): the log
+   SET k id ...; FSET k id LON 7 loads, its snapshot "set k id field LON 7 ..." does not; LON is a name
+   FSET accepts and SET refuses. *)
+Theorem c09_names_set_stricter_refuted :
+  exists l, let s := run_n trim_ws f_set_lower trim_ws l [] in
+    replay_n trim_ws f_set_lower trim_ws l [] = Some s /\
+    (exists k i o, lookup k i s = Some o /\ o_fields o <> []) /\
+    replay_n trim_ws f_set_lower trim_ws (map rec_of (flatten s)) [] = None /\
+    (exists n, reserved (trim_ws n) = false /\ reserved (f_set_lower (trim_ws n)) = true).
+Proof. exact names_set_stricter_refuted. Qed.
+Print Assumptions c09_names_set_stricter_refuted.
 
 (* Coordinates that are not finite.  The repaired snapshot writer (shrinkGeoArgs): every point and
    rectangle (NaN, +Inf, -Inf included), and every other object with finite coordinates, is read
@@ -109,14 +139,14 @@ Print Assumptions c09_startup_migrate_first_refuted.
 Example c09_ex_names :
   forallb (fun n => bytes_eqb (trim_ws (trim_ws n)) (trim_ws n))
     [[32; 122]; [122; 9; 10]; [194; 160; 108; 97; 116; 194; 133]; [32; 32]; []; [97; 32; 98]; [194; 97]; [160; 194; 160]]%N = true /\
-  exec_n trim_ws true [] (CSet [107] [49] [([32; 122]%N, Some [53%N])] false [120]%N) = None /\
-  exec_n trim_ws true [] (CSet [107] [49] [([108; 97; 116; 9]%N, Some [53%N])] false [120]%N) = None /\
+  exec_n trim_ws trim_ws trim_ws [] (CSet [107] [49] [([32; 122]%N, Some [53%N])] false [120]%N) = None /\
+  exec_n trim_ws trim_ws trim_ws [] (CSet [107] [49] [([108; 97; 116; 9]%N, Some [53%N])] false [120]%N) = None /\
   let l := [CSet [107] [49] [([32; 115; 32]%N, Some [53%N]); ([90]%N, Some [54%N])] false [120]%N;
             CFset [107] [49] [([9; 108; 111; 110]%N, Some [55%N])];
             CFset [107] [49] [([32; 97; 32]%N, Some [56%N])]] in
-  let s := run_n trim_ws l [] in
+  let s := run_n trim_ws trim_ws trim_ws l [] in
   lookup [107%N] [49%N] s = Some (mkObj [120%N] [([90%N], [54%N]); ([97%N], [56%N]); ([115%N], [53%N])] false) /\
-  replay_n trim_ws true (map rec_of (flatten s)) [] = Some s.
+  replay_n trim_ws trim_ws trim_ws (map rec_of (flatten s)) [] = Some s.
 Proof. vm_compute. repeat split; reflexivity. Qed.
 
 (* non-finite payloads: what the repaired writer emits and what comes back *)
